@@ -285,8 +285,9 @@ class MemSock(object):
             return k
         if self.link.dirs[self.out].closed:
             raise socket.error(errno.EPIPE, "peer gone")
-        if self.link.sock_closed["server" if self.side == "client"
-                                 else "client"]:
+        if self.link.peer_gone_errno is not None and \
+                self.link.sock_closed["server" if self.side == "client"
+                                      else "client"]:
             raise socket.error(self.link.peer_gone_errno,
                                "peer has closed its socket")
         take = len(data)
